@@ -359,6 +359,32 @@ class Gen:
                 tree.append(nd)
                 exp.append(("ok", None))
                 continue
+            if tree and rng.chance(1, 14):
+                # an operation the library refuses: a second root (parent NULL on a rooted tree) or tree == NULL.
+                # Nothing changes; the caller keeps (and the harness destroys) what it offered.
+                pp = pick_parent(fo)
+                pi = pp[0] if (pp and rng.chance(1, 2)) else -1
+                z = rng.chance(1, 2)
+                par = pi if z else -1          # with a tree, the refusal needs the NULL parent
+                k = rng.below(6)
+                if k == 0 and lang["tags"]:
+                    row = self.pick_tag(lang, unique=True)
+                    if row is None:
+                        continue
+                    ops.append("%sG,%d,%d" % ("Z" if z else "", par, lang["tags"].index(row)))
+                elif k == 1:
+                    ops.append("%sL,%d,%s" % ("Z" if z else "", par, hx(rng.choice(LITERALS))))
+                elif k == 2:
+                    ops.append("%sT,%d,%s" % ("Z" if z else "", par, hx(rng.choice(TEXTS))))
+                elif k == 3:
+                    ops.append("%sC,%d" % ("Z" if z else "", par))
+                elif k == 4 and not z:
+                    ops.append("E,-1,%s" % hx(rng.choice(LITERALS)))
+                else:
+                    sub_lang = DEVINF_OF.get(langid, 2202)
+                    ops.append("%sR,%d,%d,%s,%s" % ("Z" if z else "", par, sub_lang, hx(b"syncml:devinf|DevInf"), hx(rng.choice([b"", b"1.2"]))))
+                exp.append(("fail", None))
+                continue
             if r < 40:
                 pp = pick_parent(fo)
                 if pp is None:
